@@ -40,3 +40,10 @@ for _p, _q, _t in [("C01", 45, 140), ("C02", 40, 120), ("C03", 45, 140), ("C06",
         thorough=dict(shards=16, checks=_t, timeout=3000, env={"VERIF_TRUNC_EVERY": 6, "GOMEMLIMIT": "3GiB"}),
         assumptions=_LEDGER_ASSUME,
     )
+
+CHECKS["C17"] = dict(
+    test="TestC17", level="exploration",
+    quick=dict(shards=4, checks=1500, timeout=600),
+    thorough=dict(shards=16, checks=20000, timeout=2400),
+    assumptions=["entries stay far below the cache's size and 5-minute age limits, so eviction/expiry cannot interfere (and are not tested)", "concurrent interleavings are sampled with varied GOMAXPROCS, not enumerated"],
+)
